@@ -74,8 +74,8 @@ let () =
         let p_fix_items = List.init ni_ (fun _ ->
           let fi_disk = ni () in let fi_path = ni () in let fi_kind = kind_of (next ()) in let fi_selected = nb () in
           let fi_missing = nb () in let fi_unrec_copy = nb () in let fi_larger = nb () in let fi_state = state_of (next ()) in
-          let fi_partial = nb () in let na = int_of_string (next ()) in let fi_anc = List.init na (fun _ -> ni ()) in
-          { fi_disk; fi_path; fi_kind; fi_selected; fi_missing; fi_unrec_copy; fi_larger; fi_state; fi_partial; fi_anc }) in
+          let fi_partial = nb () in let fi_unsynced = nb () in let fi_finished = nb () in let na = int_of_string (next ()) in let fi_anc = List.init na (fun _ -> ni ()) in
+          { fi_disk; fi_path; fi_kind; fi_selected; fi_missing; fi_unrec_copy; fi_larger; fi_state; fi_partial; fi_unsynced; fi_finished; fi_anc }) in
         if next () <> "F" then failwith "F";
         let nf = int_of_string (next ()) in
         let p_fix_parity = List.init nf (fun _ -> pair (next ())) in
